@@ -211,8 +211,9 @@ def generate(rng: random.Random, tier: str):
         for base in BASES:
             yield {"kind": "validate", "base": base, "fmt": fmt, "faults": []}
             cat = catalogue(base, fmt)
-            for f in cat:
-                yield {"kind": "validate", "base": base, "fmt": fmt, "faults": [f]}
+            for i, f in enumerate(cat):
+                # every 6th fault (all of them in thorough) is also judged through the command line
+                yield {"kind": "validate", "base": base, "fmt": fmt, "faults": [f], "cli": tier == "thorough" or i % 6 == 0}
             npairs = 40 if tier == "quick" else 600
             for _ in range(npairs):
                 yield {"kind": "validate", "base": base, "fmt": fmt, "faults": [rng.choice(cat), rng.choice(cat)]}
@@ -257,10 +258,36 @@ def run_impl(c):
     tree = dump_tree(st, it)
     obs["v"] = verdict(lambda: validate_structure(st))
     obs["reader"] = verdict(lambda: GeffReader(st, validate=True))
+    if c.get("cli"):
+        obs["cli"] = cli_exit(st)
     obs["tree"] = tree
     if tree_printable(tree):
         obs["coq"] = f"(IValidate KObj {c_otree(tree)}, OVal {cres(obs['v'])})"
     return obs
+
+
+def cli_exit(st) -> int:
+    """exit status of `geff validate <path>` on a directory copy of the store"""
+    import os
+    import shutil
+    from pathlib import Path
+
+    from typer.testing import CliRunner
+
+    from geff._cli import app
+    from harness.common import WORK
+
+    p = WORK / f"c04-{os.getpid()}" / "s.zarr"
+    shutil.rmtree(p.parent, ignore_errors=True)
+    p.mkdir(parents=True)
+    for k, v in st._store_dict.items():
+        f = p / k
+        f.parent.mkdir(parents=True, exist_ok=True)
+        f.write_bytes(bytes(v.to_bytes()))
+    try:
+        return CliRunner().invoke(app, ["validate", str(p)]).exit_code
+    finally:
+        shutil.rmtree(p.parent, ignore_errors=True)
 
 
 def cres(v):
@@ -360,6 +387,8 @@ def oracle(c, o):
         return Failure(c, slim(o), "accepts a non-conformant store", {"why": "accepts-nonconformant", "fault": fault_tag(c)})
     if v[0] == "err" and v[1] != "ValueError":
         return Failure(c, slim(o), f"rejects with {v[2]} instead of ValueError: {v[3]}", {"why": "wrong-exception", "exc": v[2]})
+    if "cli" in o and (o["cli"] == 0) != (v[0] == "ok"):
+        return Failure(c, slim(o), f"`geff validate` exits {o['cli']} but validate_structure {v[:3]}", {"why": "cli-disagrees"})
     if o["reader"][0] != v[0] or (v[0] == "err" and o["reader"][1] != v[1]):
         return Failure(c, slim(o), f"GeffReader(validate=True) gives {o['reader'][:3]} but validate_structure {v[:3]}", {"why": "reader-disagrees"})
     return None
